@@ -219,7 +219,7 @@ func (c *c11Ctx) runCut(in *ioInput, entry string, k int, fault bool, chunking s
 		}
 		return ic
 	}
-	if impl.observable() != model.observable() {
+	if impl.observableMasked() != model.observableMasked() {
 		r.corrFail("model_vs_impl_"+entry, fmt.Sprintf("model and implementation differ (entry %s, offset %d of %d, fault=%v, chunking %s)\n    impl : %.500s\n    model: %.500s", entry, k, len(in.data), fault, chunking, impl.observable(), model.observable()), rep())
 	}
 	bites := c.judge(in, entry, k, fault, chunking, impl, model, rep)
@@ -544,7 +544,7 @@ func replayC11(r *report, w *world, in *ioInput, ic ioCase) int {
 		return 2
 	}
 	rep := func() interface{} { return ic }
-	if impl.observable() != model.observable() {
+	if impl.observableMasked() != model.observableMasked() {
 		r.corrFail("model_vs_impl_"+ic.Entry, fmt.Sprintf("model and implementation differ\n    impl : %.500s\n    model: %.500s", impl.observable(), model.observable()), ic)
 	}
 	c.judge(in, ic.Entry, ic.Cut, ic.Fault, ic.Chunking, impl, model, rep)
